@@ -133,7 +133,7 @@ check('C02', 'proof',
       "flows, P). Proof in mode S modulo A-root.",
       "A-real; A-models (pure-component H, S, Cn uninterpreted functions of (T,P); mixing rules, getters and caches are the real code); A-root / A-root-stay (solve_T_at_HP/SP "
       "and xsolve_* return T* with property(T*) = target or raise; the real numeric solvers are executed only in the bounded group C02/B_real_solvers). Not "
-      "covered: vle=True mixing, multi-phase entropy with more than one chemical per phase. 4 defects repaired.",
+      "covered: multi-phase entropy with more than one chemical per phase in mode S (vle=True mixing: see the third-session addendum). 4 defects repaired.",
       "deductive: sidecar contracts + VC generation by symbolic execution of the real functions, z3 discharge, native replay", "DESIGN.md 4/C02")
 check('C06', 'proof',
       "For every enumerated reaction structure (single with symbolic stoichiometry; parallel/series/system with numeric stoichiometry; plain and phase-tagged; mol and wt; stream "
@@ -198,8 +198,8 @@ check('C14', 'proof',
       "second package with different models refutes a memo surviving a package change). The frame of each read and of source-only arguments is proved as well.",
       "A-real with log uninterpreted (entropy is never primed before a flow change); A-models, A-root. Structure bounded: 2 chemicals, <= 3 phases, history depth as stated; the "
       "induction over histories (representation invariant Inv preserved by each step) is replaced by the observational form (move to an arbitrary symbolic state, the read is "
-      "fresh) and is argued, not mechanised. Native cross-checks are skipped when a model leaves the float range. Not covered: F_mass/F_vol/imass/ivol setters, vle/lle/sle "
-      "mutators, mix_from with energy balance and >= 2 inlets. 1 defect repaired (Stream.proxy).",
+      "fresh) and is argued, not mechanised. Native cross-checks are skipped when a model leaves the float range. (The mass/volumetric setters, equilibrium mutators and energy-balanced "
+      "mixing that the first version left out are covered by C14_gap.py, see below; still not covered: sle.) 1 defect repaired (Stream.proxy).",
       "deductive: sidecar contracts + VC generation by symbolic execution of the real functions with uninterpreted property models, z3 discharge, native replay", "DESIGN.md 4/C14")
 check('C15', 'other',
       "Mode S (bounded structure, all real values): the bookkeeping of LLE.__call__ is proved modulo the optimiser contract A-opt (solve_lle_liquid_mol returns 0 <= mol_L <= mol "
